@@ -44,9 +44,56 @@ pub fn curve_samples(c: &Curve2, n: usize) -> Vec<Point2> {
     (0..n).map(|k| c.at_fraction((k as f64 + 0.37) / n as f64).unwrap().point()).collect()
 }
 
+/// An open bracket: a plate in z = 0 (x 0..4, y 0..6) and a plate in x = 0 (z 0..3, y 0..6) sharing the fold
+/// along y; both have free edges, so samples can slide off them within their own plane
+fn bracket() -> Mesh {
+    let mut v = Vec::new();
+    let mut f: Vec<[u32; 3]> = Vec::new();
+    for (plate, (nu, nw)) in [(2usize, 3usize), (2, 3)].iter().enumerate() {
+        let base = v.len() as u32;
+        for i in 0..=*nu {
+            for j in 0..=*nw {
+                let (u, w) = (i as f64 * if plate == 0 { 2.0 } else { 1.5 }, j as f64 * 2.0);
+                v.push(if plate == 0 { Point3::new(u, w, 0.0) } else { Point3::new(0.0, w, u) });
+            }
+        }
+        for i in 0..*nu {
+            for j in 0..*nw {
+                let a = base + (i * (nw + 1) + j) as u32;
+                let (b, c, d) = (a + 1, a + (*nw as u32 + 1), a + (*nw as u32 + 2));
+                if plate == 0 {
+                    f.push([a, c, d]);
+                    f.push([a, d, b]);
+                } else {
+                    f.push([a, d, c]);
+                    f.push([a, b, d]);
+                }
+            }
+        }
+    }
+    Mesh::new(v, f, false)
+}
+
+/// Grid samples on both plates of the bracket, the outermost rows exactly on the free edges (so that the
+/// position of the part along the fold is determined: any slide pushes a row off the surface)
+fn bracket_samples() -> Vec<Point3> {
+    let mut out = Vec::new();
+    for i in 0..=5 {
+        for j in 0..=8 {
+            let b = j as f64 * 0.75;
+            out.push(Point3::new(0.2 + i as f64 * 0.76, b, 0.0));
+            out.push(Point3::new(0.0, b, 0.2 + i as f64 * 0.56));
+        }
+    }
+    out
+}
+
 pub fn mesh_ref(shape: usize) -> Mesh {
     if shape == 0 {
         return Mesh::create_box(10.0, 5.0, 2.0, false);
+    }
+    if shape == 2 {
+        return bracket();
     }
     // L-shaped prism, height 1.5
     let outline = [(0.0, 0.0), (6.0, 0.0), (6.0, 2.0), (2.0, 2.0), (2.0, 5.0), (0.0, 5.0), (0.0, 2.0)];
@@ -277,8 +324,13 @@ fn judge_rec2(case: &Case, wild: bool, l: &mut Local) {
 fn judge_rec3(case: &Case, wild: bool, l: &mut Local) {
     let mk = || serde_json::to_value(case).unwrap();
     let mesh = mesh_ref(case.shape);
-    let samples = mesh_samples(&mesh);
-    let shift = if wild {
+    let open = case.kind == "open3";
+    let samples = if open { bracket_samples() } else { mesh_samples(&mesh) };
+    let shift = if open {
+        // slides within the plates (along the fold, and obliquely with a small turn): samples near the free
+        // edges leave the surface while staying in the plane of their face
+        [Iso3::new(Vector3::new(0.0, 0.3, 0.0), Vector3::zeros()), Iso3::new(Vector3::new(0.0, -0.2, 0.0), Vector3::zeros()), Iso3::new(Vector3::new(0.05, 0.25, -0.04), Vector3::new(0.0, 0.01, -0.01))][case.a % 3]
+    } else if wild {
         Iso3::new(Vector3::new(0.5, -0.3, 0.2), [Vector3::z() * (40.0 * DEG), Vector3::x() * (-40.0 * DEG), Vector3::new(1.0, 1.0, 0.0).normalize() * (25.0 * DEG)][case.a % 3])
     } else {
         shifts3()[case.a % shifts3().len()]
@@ -296,7 +348,7 @@ fn judge_rec3(case: &Case, wild: bool, l: &mut Local) {
     let mode = || if case.mode == 0 { DistMode::ToPlane } else { DistMode::ToPoint };
     let moved: Vec<Point3> = samples.iter().map(|p| shift * p).collect();
     l.eval();
-    l.bucket(if turned { "3D turned part, guess near the answer" } else if wild { "3D start outside the basin" } else if case.mode == 0 { "3D plane mode inside the basin" } else { "3D point mode inside the basin" });
+    l.bucket(if open { "3D open bracket, samples sliding off free edges" } else if turned { "3D turned part, guess near the answer" } else if wild { "3D start outside the basin" } else if case.mode == 0 { "3D plane mode inside the basin" } else { "3D point mode inside the basin" });
     let r = match guarded(|| points_to_mesh(&moved, &mesh, &guess, mode()).map_err(|e| e.to_string())) {
         Ok(r) => r,
         Err(e) => {
@@ -340,6 +392,7 @@ pub fn judge(case: &Case, l: &mut Local) {
         "wild3" => judge_rec3(case, true, l),
         "turned2" => judge_rec2(case, true, l),
         "turned3" => judge_rec3(case, true, l),
+        "open3" => judge_rec3(case, false, l),
         _ => {}
     }
 }
@@ -376,6 +429,11 @@ pub fn cases(tier: Tier) -> Vec<Case> {
             }
         }
     }
+    for a in 0..3 {
+        for guess in 0..2 {
+            out.push(c("open3", 2, 1, a, 0, guess));
+        }
+    }
     let n3 = shifts3().len();
     for shape in 0..2 {
         for mode in 0..2 {
@@ -404,7 +462,7 @@ pub fn run(tier: Tier) -> i32 {
     let mut cx = Ctx::new("C07", tier, "model_checking");
     cx.rule = "MC: every set_params history of length <= 3 over a 5-vector alphabet (start, two small, two large moves) of the private 2D points-to-curve problem (3 reference curves x 2 initial guesses) and the 3D points-to-mesh problem (2 meshes x 2 distance modes), each compared with a fresh problem whose history is just the last element, residuals recomputed by brute force. EX: recovery of every displacement of the stated basin (2D: {-.05,0,.05}^2 x {0,+-3,+-10 deg}; 3D: {-.1,0,.1}^3 x {0, +-2 deg about x, y, z, (1,1,1)}; at most 5% of the smallest feature) x 2 initial guesses x sample densities x both DistModes on rectangle / L-shape / pentagon and box / L-prism; out-of-basin starts (25-40 deg) judged for residual honesty only; 'turned parts': displacements of 60-170 deg (2D) / 1.2-3 rad (3D) with translations, started from a guess within the basin of the exact answer, must be recovered. distinct = distinct cases".into();
     cx.bounds = json!({"history_len": 3, "alphabet": 5, "shifts2": shifts2().len(), "shifts3": shifts3().len(), "shifts3_subsampling": tier.pick(3, 1)});
-    cx.require(&["2D set_params history", "3D set_params history", "2D displacement inside the basin", "2D start outside the basin", "3D plane mode inside the basin", "3D point mode inside the basin", "3D start outside the basin", "2D turned part, guess near the answer", "3D turned part, guess near the answer"]);
+    cx.require(&["2D set_params history", "3D set_params history", "2D displacement inside the basin", "2D start outside the basin", "3D plane mode inside the basin", "3D point mode inside the basin", "3D start outside the basin", "2D turned part, guess near the answer", "3D turned part, guess near the answer", "3D open bracket, samples sliding off free edges"]);
     cx.assume("basin: translations up to 5% of the smallest feature, rotations up to 10 deg (2D) / 2 deg (3D), guesses within 2 deg / 0.1; recovery judged at 1e-6 on matrix entries; plane-mode residuals may use any minimising face");
     let cs = cases(tier);
     let l = sweep(&cs, judge);
